@@ -2,6 +2,7 @@ package props
 
 import (
 	"fmt"
+	"strings"
 	"time"
 
 	"github.com/f1bonacc1/process-compose/src/types"
@@ -197,6 +198,21 @@ func oracleManual(lr *LifeRun, ix *lifeIndex, r *fw.Result) {
 				startupDone = pl.Instances[0]
 			}
 		}
+	}
+	// exact end of Run()'s start-up loop (hook Run.loopDone): until then an
+	// instance may be the automatic one - Run() creates it when it reaches the
+	// process and finds no live instance, which can be long after the first
+	// (manually started) instance of that process ended when the loop was
+	// waiting behind a restart's back-off (false alarm of seed 28, DESIGN 9)
+	loopDone := len(ix.ev) + 1
+	for i := range ix.ev {
+		if ix.ev[i].Kind == sim.EvYield && ix.ev[i].Str == "Run.loopDone" {
+			loopDone = i
+			break
+		}
+	}
+	if loopDone > startupDone {
+		startupDone = loopDone
 	}
 	var calls []call
 	for i := range ix.ev {
@@ -460,6 +476,44 @@ func oracleState(lr *LifeRun, ix *lifeIndex, r *fw.Result) {
 			// nothing left to wait for
 			if fs, ok := lr.Final[name]; ok && (fs.Status == types.ProcessStateRestarting || fs.Status == types.ProcessStateTerminating || fs.Status == types.ProcessStateLaunching) && !ix.aliveAt(name, len(ix.ev)+1) {
 				r.Add("C09", "transient-at-end:"+fs.Status, "%s remains in transient status %s although no command is alive and nothing moves any more (Run() hangs)", name, fs.Status)
+			}
+			// Pending: the instance exists, its goroutine has not ended, and every
+			// process it waits for is reported terminal with no command alive -
+			// whatever the condition, the wait is decided then (launch or skip)
+			if fs, ok := lr.Final[name]; ok && fs.Status == types.ProcessStatePending && len(pl.Instances) > 0 {
+				lastInst := pl.Instances[len(pl.Instances)-1]
+				ended := hasEventBetween(ix.ev, lastInst, len(ix.ev)+1, func(e *sim.Event) bool {
+					return e.Kind == sim.EvYield && e.Str == "runner.afterRun" && e.Proc == name
+				})
+				var me *PSpec
+				for i := range lr.Spec.Procs {
+					for _, n := range pspecNames(&lr.Spec.Procs[i]) {
+						if n == name {
+							me = &lr.Spec.Procs[i]
+						}
+					}
+				}
+				decided := me != nil && !ended
+				var deps []string
+				if me != nil {
+					for _, d := range me.Deps {
+						dp := lr.Spec.proc(d.On)
+						if dp == nil {
+							decided = false
+							break
+						}
+						for _, dn := range pspecNames(dp) {
+							ds, ok := lr.Final[dn]
+							if !ok || !isTerminal(ds.Status) || ix.aliveAt(dn, len(ix.ev)+1) {
+								decided = false
+							}
+							deps = append(deps, dn+"="+ds.Status)
+						}
+					}
+				}
+				if decided && len(me.Deps) > 0 {
+					r.Add("C09", "transient-at-end:"+fs.Status, "%s remains Pending although every process it depends on has ended (%s), no command is alive and nothing moves any more (Run() hangs)", name, strings.Join(deps, ", "))
+				}
 			}
 		}
 		if lr.Outcome == sim.RunReturned && lr.Settled {
